@@ -243,11 +243,32 @@ def check_signatures_and_dataclass(ctx, r):
             verdicts.append("unknown")
     if not pdefs:
         verdicts.append("unknown")
+    # ... and it is derived from the *final* full signature: a (re-)binding of full_signature that comes after the last derivation (string
+    # annotations resolved by get_type_hints and put into the signature) is not seen by the parameter check -- every string annotation is `Any` there
+    order_ = {}
+
+    def _pre(n_):
+        order_[id(n_)] = len(order_)
+        for c_ in ast.iter_child_nodes(n_):
+            _pre(c_)
+
+    _pre(jt.node)
+    full_defs = [st for st in ast.walk(jt.node) if isinstance(st, ast.Assign) and len(st.targets) == 1 and norm(st.targets[0]) == "full_signature"]
+    if pdefs and full_defs and "bad" not in verdicts and "unknown" not in verdicts:
+        last_p = max(order_[id(st)] for st, _, _ in pdefs)
+        late = [st for st in full_defs if order_[id(st)] > last_p]
+        if late:
+            ctx.bad("C02.3", jt, late[0], f"`{short(late[0], 60)}` re-binds the full signature after the parameter-check signature was derived from it: the annotations resolved there (string "
+                    "annotations, `from __future__ import annotations`) are missing from the parameter check, which then checks nothing; ill-typed arguments run the body and the "
+                    "error, if any, blames the return value", construct="param_signature derived before full_signature is final")
+            verdicts = ["reported"]
     if "bad" in verdicts:
         bad_st = pdefs[verdicts.index("bad")][0]
         ctx.bad("C02.3", jt, bad_st.value, "the parameter-check signature is not the full signature with (only) the return annotation replaced by Any")
     elif "unknown" in verdicts:
         raise AnalysisError("C02.3: how the parameter-check signature is derived from the full signature was not recognised")
+    elif "reported" in verdicts:
+        pass
     else:
         ctx.ok("C02.3", jt.qualname, "parameter check uses the full signature with only the return annotation blanked")
     calls = [st.value for st in walk_scope(jt.node) if isinstance(st, ast.Assign) and isinstance(st.value, ast.Call) and m.resolve_call(jt, st.value).kind == "func"
